@@ -210,6 +210,18 @@ Theorem conc_reply_keeps_snapshot :
 Proof. exact fetch_lags_strip. Qed.
 Print Assumptions conc_reply_keeps_snapshot.
 
+(* ... and it is complete: for every topic the broker map holds when the reply is made and every partition the brokers
+   report, the reply carries exactly that partition's recorded broker offsets - whatever other topics of the group are
+   stale (deleted under an in-flight commit).  With conc_reply_consistent: CurrentLag is computed from the newest one. *)
+Theorem conc_reply_broker_complete :
+  forall cf now prio st c snap st' l,
+    exec cf now true prio st (KFetchCons3 c snap) = SDone st' (RConsumer l) ->
+    exists cl, get st c = Some cl /\
+      forall t cps' tl j cp' r, In (t, cps') l -> get (cl_broker cl) t = Some tl ->
+        nth_error cps' j = Some cp' -> nth_error tl j = Some r -> cp_brokers cp' = somes r.
+Proof. exact reply_broker_complete. Qed.
+Print Assumptions conc_reply_broker_complete.
+
 (* ============================================================================================== *)
 (* non-vacuity                                                                                     *)
 (* ============================================================================================== *)
